@@ -72,7 +72,7 @@ func checkC01(c *Ctx) {
 	sel := shapeSel{ExtraTypes: commonExtras, Forms: []string{"top", "field"}, QuickDeep: 50, QuickRand: 30, ThorRand: 600, BatchSize: 24,
 		Ops: func(t *pgen.Type, form string) []string { return []string{"x"} }}
 	batches := c.buildTypeBatches(sel)
-	forms := []string{"body", "closure", "var", "test"}
+	forms := []string{"body", "closure", "var", "test", "conv"}
 	fr := rand.New(rand.NewSource(c.Seed*97 + 1))
 	for _, b := range batches {
 		pc := PlainCase{Name: "c01-" + b.Name, U: b.U}
@@ -263,6 +263,21 @@ var _ = deriveKeys(1) + deriveSort(1) + deriveEqual_(1) + deriveCompare_(1) + de
 		}
 		return items, nil
 	})
+	// one plugin at a time over imported structs: a helper of another plugin must not be what makes
+	// an import "used"
+	for _, op := range []string{"equal", "compare", "hash", "clone", "deepcopy", "gostring"} {
+		op := op
+		mk("single"+op, func(u *pgen.Universe, s *pgen.Std) ([]pgen.PItem, map[string]string) {
+			var items []pgen.PItem
+			for _, t := range []*pgen.Type{pgen.Ptr(s.XT), pgen.Ptr(s.XE), pgen.Slice(s.XT), pgen.Map(pgen.B("string"), pgen.Ptr(s.XDupA))} {
+				items = append(items, pgen.PItem{TItem: pgen.TItem{T: t, Ops: []string{op}}})
+			}
+			if op != "gostring" {
+				items = append(items, pgen.PItem{TItem: pgen.TItem{T: pgen.Ptr(s.XU), Ops: []string{op}}})
+			}
+			return items, nil
+		})
+	}
 	mk("ptr-key", func(u *pgen.Universe, s *pgen.Std) ([]pgen.PItem, map[string]string) {
 		sk := u.DeclareAs("", "SK", pgen.StructOf(pgen.F("P", pgen.Ptr(pgen.B("int"))), pgen.F("N", pgen.B("int"))))
 		m := pgen.Map(sk, pgen.B("string"))
@@ -279,7 +294,8 @@ type dedupe map[string]bool
 
 func assignKey(t *pgen.Type) string {
 	// a named non-struct type and the unnamed type identical to its underlying type are mutually assignable
-	if t.K == pgen.KNamed && t.Under.K != pgen.KStruct {
+	// (predeclared basic types are named types themselves: NInt and int64 are NOT mutually assignable)
+	if t.K == pgen.KNamed && t.Under.K != pgen.KStruct && t.Under.K != pgen.KBasic {
 		return t.Under.Expr("", nil)
 	}
 	return t.Expr("", nil)
@@ -304,9 +320,9 @@ func opPlugins(op string, t *pgen.Type) []string {
 	case "hash", "clone", "gostring", "deepcopy", "keys":
 		return []string{op + "|" + k}
 	case "sortkeys":
-		return []string{"keys|" + k, "sort|[]" + t.Underlying().Key.Expr("", nil)}
+		return []string{"keys|" + k, "sort|[]" + assignKey(t.Underlying().Key)}
 	case "fmapkeys":
-		return []string{"keys|" + k, "fmap|func(" + t.Underlying().Key.Expr("", nil) + ")bool,[]" + t.Underlying().Key.Expr("", nil)}
+		return []string{"keys|" + k, "fmap|func(" + assignKey(t.Underlying().Key) + ")bool,[]" + assignKey(t.Underlying().Key)}
 	case "equalclone":
 		return []string{"equal2|" + k, "clone|" + k}
 	case "min2", "max2":
